@@ -74,12 +74,24 @@ impl Property for C16 {
             (Tier::Thorough, false) => 6000,
             (Tier::Thorough, true) => 600,
         };
-        (0..10).map(|s| (s, per)).collect()
+        let mut v: Vec<(u32, u32)> = (0..10).map(|s| (s, per)).collect();
+        // more than 64 secret values in one call: polynomials with 66..130 coefficients (dealer, split, DKG part 1, refresh part 1)
+        for e in [1u32, 2, 3, 4] {
+            v.push((100 + e, if suite.slow() { 1 } else { tier.pick(1, 4) }));
+        }
+        v
     }
     fn chunk(&self, suite: SuiteId) -> u32 {
         if suite.slow() { 2 } else { 10 }
     }
     fn strategy(&self, suite: SuiteId, tier: Tier, stratum: u32) -> BoxedStrategy<Case> {
+        if stratum >= 100 {
+            let entry = (stratum - 100) as u8;
+            let ts: Vec<u16> = if suite.slow() { vec![66] } else { vec![66, 80, 130] };
+            return (proptest::sample::select(ts), idspec_strategy(None), any::<u64>(), any::<u64>())
+                .prop_map(move |(t, ids, tape_seed, seed)| Case { entry, shape: Shape { n: t + 1, t }, ids, tape_seed, seed })
+                .boxed();
+        }
         let entry = stratum as u8;
         let nmax = match (tier, suite.slow()) {
             (Tier::Quick, false) => 8,
@@ -97,6 +109,7 @@ impl Property for C16 {
         v.push(("secrets>=4".into(), m));
         v.push(("extreme-draw".into(), m));
         v.push(("fresh-process".into(), 60));
+        v.push(("secrets>64".into(), 8));
         v
     }
     fn check(&self, suite: SuiteId, case: &Case, ctx: &mut Ctx) -> CheckResult {
@@ -284,6 +297,9 @@ fn check<C: Suite>(case: &Case, ctx: &mut Ctx) -> CheckResult {
     let base = run_entry::<C>(entry, &st, spec.clone())?;
     if base.independent.len() >= 4 {
         ctx.label("secrets>=4");
+    }
+    if base.independent.len() > 64 {
+        ctx.label("secrets>64");
     }
 
     // the number of draws is at least the number of secrets; every draw is non-empty
